@@ -5,9 +5,11 @@ pub mod c01;
 pub mod c03;
 // pub mod c24_table;
 pub mod common;
+pub mod edit;
+pub mod edits;
 
 pub fn all_ids() -> Vec<&'static str> {
-    vec!["C01", "C02", "C03"]
+    vec!["C01", "C02", "C03", "C06", "C07", "C08", "C09", "C10", "C11"]
 }
 
 pub fn get(id: &str) -> Option<Box<dyn Driver>> {
@@ -15,6 +17,12 @@ pub fn get(id: &str) -> Option<Box<dyn Driver>> {
         "C01" => Box::new(c01::RoundTrip { content: false }),
         "C02" => Box::new(c01::RoundTrip { content: true }),
         "C03" => Box::new(c03::ParseNoPanic),
+        "C06" => Box::new(edits::c06()),
+        "C07" => Box::new(edits::c07()),
+        "C08" => Box::new(edits::c08()),
+        "C09" => Box::new(edits::c09()),
+        "C10" => Box::new(edits::c10()),
+        "C11" => Box::new(edits::c11()),
         _ => return None,
     })
 }
